@@ -131,14 +131,19 @@ TRUSTED = [
     "Model/Mem.lean for overlay and backend (C01 ties it to cashews/backends/memory.py)",
     "harness: virtual clock (harness/vtime.py), canonicalisation, the raw non-touching observer (harness/txhist.py)",
     "one task, one backend; lock contention between tasks is C05's business, failing backends C16's",
+    "shared context objects are used by one task only",
 ]
 
 
 def run_prop(chk: Check, prop: str) -> int:
     proof = proof_stage(prop, "driver_c03", chk.thorough) if not getattr(chk, "skip_proof", False) else None
-    n = chk.budget(10000, 150000)
+    n = chk.budget(8000, 120000)
     cases = [("corpus:" + name, c) for name, c in corpus_cases(prop)]
     ncorpus = len(cases)
+    nnest = 0
+    for c in txhist.nesting_cases(None if chk.thorough else chk.rng):
+        cases.append(("nesting", c))
+        nnest += 1
     for i in range(n):
         cases.append((f"gen:{i}", txhist.gen_case(chk.rng, i)))
     nexh = 0
@@ -195,14 +200,23 @@ def run_prop(chk: Check, prop: str) -> int:
     chk.coverage.update({
         "evaluations": evaluations,
         "distinct_nontrivial": len(distinct),
-        "rule": "cases = (initial store over 3 keys x {absent, no ttl, live ttl, expired-unpurged}, one task's program of 1-2 "
-                "outermost `Cache.transaction(mode)` blocks in fast/locked/serializable mode, nested up to twice, ended by commit / "
+        "rule": "cases = (initial store over 3 keys x {absent, no ttl, live ttl, expired-unpurged}, one task's program of 1-3 "
+                "outermost `Cache.transaction(mode)` blocks in fast/locked/serializable mode, nested up to three times, every block opened "
+                "on a context object of its own (`async with cache.transaction(m):`), in decorator form (`@cache.transaction(m)`, or `@T[i]` with a shared object as the decorator) or on one "
+                "of three SHARED context objects kept for the whole case (entered again nested in themselves, nested in each other, inside "
+                "a decorator body, and re-used sequentially for later outermost blocks), ended by commit / "
                 "raised exception / explicit tx.rollback() / tx.commit(), <= 14 commands per block, time advances inside) generated from "
-                "VERIF_SEED, configs facade and facade_secret; every 8th case lets TTLs elapse inside the block (model comparison only). "
+                "VERIF_SEED, configs facade and facade_secret; every 8th case lets TTLs elapse inside the block (model comparison only); the object "
+                "owning the transaction may be active three or four times at once; plus the enumerated nesting shapes (nesting_rule). "
                 "A case is non-trivial iff at least one of the interesting states listed in interesting_states_cases was reached; "
                 "distinct = distinct case JSON",
         "samples": samples,
         "corpus_cases": ncorpus,
+        "nesting_cases": nnest,
+        "nesting_rule": "every nesting shape of depth <= 3 over {own object, decorator form, shared object @0, shared object @1, decorator form with @0 as the decorator} (155 shapes) x "
+                        "every block left normally / by a caught exception, a write after every block boundary, followed by a second "
+                        "outermost block re-using the first block's object entered twice; quick tier: one mode per shape drawn from "
+                        "VERIF_SEED, thorough tier: all three modes (exhaustive over this space)",
         "exhaustive": bool(nexh),
         "exhaustive_cases": nexh,
         "exhaustive_rule": "thorough tier: 4 initial shapes of one key x all histories of <= 2 commands from an 11-command alphabet x 3 modes x {commit, exception}",
@@ -212,9 +226,11 @@ def run_prop(chk: Check, prop: str) -> int:
         "segments_satisfying_NoDeadlineCrossed": nseg_ndc,
         "comparisons": "per event: impl-tx = model-tx, impl-direct = model-direct, backend live view (values + deadlines + lock keys) "
                        "impl = model, direct view impl = model; on segments satisfying NoDeadlineCrossed additionally the property "
-                       "itself on the implementation's answers (and on the model's)",
+                       "additionally the property itself on the implementation's answers (and on the model's); "
+                       "segments are syntactic (outermost enter .. matching exit), so a transaction ended early by an inner exit is a "
+                       "violation of C03 (writes visible before the block ends / not rolled back)",
         "trusted_base": TRUSTED,
-        "partial": "one task and one Memory backend; non-dyadic TTLs, more than 3 keys, blocks longer than 14 commands, the overlay's "
+        "partial": "one task and one Memory backend; a context object shared between tasks is not exercised; non-dyadic TTLs, more than 3 keys, blocks longer than 14 commands, the overlay's "
                    "own capacity of 1000 entries, delete_match/scan/get_match inside a transaction (C13) are not exercised",
     })
     chk.assumptions.extend(TRUSTED)
